@@ -23,6 +23,7 @@ type family struct {
 	Space *gen.Space
 	Sugar bool  // emit one-sugar variants of each canonical member instead of the member itself
 	Limit int64 // stop after this many raw indices (0 = whole space); reported as a cap
+	Names int   // gen.Grammar.RenameRules scheme
 }
 
 // each calls f(caseIndex, grammar) for every grammar of the family that falls
@@ -45,6 +46,7 @@ func (fam *family) each(c *mc.Ctx, f func(idx int64, g *gen.Grammar)) {
 		if g == nil {
 			continue
 		}
+		g.RenameRules(fam.Names)
 		if !fam.Sugar {
 			f(i*1000, g)
 			continue
@@ -148,6 +150,8 @@ func c01Families(quick bool) c01Params {
 				{Name: "plain", Space: gen.NewSpace(2, 2, 2, 2, false)},
 				{Name: "plain3", Space: gen.NewSpace(3, 2, 2, 2, false), Limit: 400000},
 				{Name: "sugar", Space: gen.NewSpace(2, 2, 2, 2, false), Sugar: true, Limit: 6000},
+				{Name: "plain-names", Space: gen.NewSpace(2, 2, 2, 2, false), Names: 1},
+				{Name: "plain3-names", Space: gen.NewSpace(3, 2, 2, 2, false), Limit: 150000, Names: 1},
 			},
 			L: 6, Lpos: 9, Npos: 200,
 		}
@@ -159,6 +163,8 @@ func c01Families(quick bool) c01Params {
 			{Name: "plain3", Space: gen.NewSpace(3, 2, 2, 2, false)},
 			{Name: "plain-t3", Space: gen.NewSpace(2, 3, 2, 2, false)},
 			{Name: "sugar", Space: gen.NewSpace(2, 2, 2, 2, false), Sugar: true},
+			{Name: "plain-names", Space: gen.NewSpace(2, 2, 2, 2, false), Names: 1},
+			{Name: "plain-t3-names", Space: gen.NewSpace(2, 3, 2, 2, false), Names: 1},
 		},
 		L: 8, Lpos: 12, Npos: 2000,
 	}
